@@ -11,14 +11,19 @@ def judge(h, obs):
     """Statement-level verdicts on the real observations; returns (violations, drifts)."""
     bad, drift = [], []
     prev = None
+    pid_of = lf.pids(h)
     for e, o in zip(h["hist"], obs):
         th = o["threads"]
         if e["op"] == "load":
             caller = th[e["caller"]]
             fid = e["fid"]
+            pid = pid_of[fid]
             tsync = "TSYNC" in e["flags"]
-            inforce_caller = fid in caller["in_force"]
-            inforce_all = all(fid in t["in_force"] for t in th.values())
+            # the new filter is in force: its policy answers the probe AND the thread carries one filter more than before
+            # (an earlier load may have installed the same policy already)
+            grew = caller["filters"] == lf.filters_before(prev, e["caller"]) + 1
+            inforce_caller = pid in caller["in_force"] and grew
+            inforce_all = inforce_caller and all(pid in t["in_force"] and t["filters"] == caller["filters"] for t in th.values())
             if o["result"] == "nil":
                 if not inforce_caller:
                     bad.append("step %d: LoadFilter returned nil but filter %d is not in force on the calling thread" % (o["step"], fid))
@@ -30,7 +35,7 @@ def judge(h, obs):
                         if u["tid"] in pf and u["filters"] <= 0:
                             bad.append("step %d: thread-sync load returned nil but runtime thread %d carries no filter" % (o["step"], u["tid"]))
             else:
-                if inforce_caller:
+                if caller["filters"] > lf.filters_before(prev, e["caller"]):
                     bad.append("step %d: LoadFilter returned an error but filter %d is in force" % (o["step"], fid))
             if o["result"] == "nil" and e["res"] != "nil" and not bad:
                 # the kernel (as modelled) declines this attach, yet nil came back and the filter is there:
@@ -60,7 +65,7 @@ def judge(h, obs):
             if r is None:
                 drift.append("step %d: thread %s missing" % (o["step"], t))
                 continue
-            if sorted(r["in_force"]) != sorted(x for x in exp["chain"] if x != 0) or bool(r["nnp"]) != exp["nnp"] or r["filters"] != len(exp["chain"]):
+            if (sorted(r["in_force"]), r["filters"]) != lf.project(exp["chain"], pid_of) or bool(r["nnp"]) != exp["nnp"]:
                 drift.append("step %d: thread %s real in_force=%s nnp=%d filters=%d, spec chain=%s nnp=%s" % (o["step"], t, r["in_force"], r["nnp"], r["filters"], exp["chain"], exp["nnp"]))
         if o["result"] in ("nil", "err", "true", "false") and e.get("res") and o["result"] != e["res"]:
             drift.append("step %d: result real %s, spec %s" % (o["step"], o["result"], e["res"]))
@@ -89,6 +94,8 @@ def tags(h):
                 f.add("ok-tsync" if tsync else "ok-plain")
             elif 0 in e["state"][e["caller"]]["chain"]:
                 f.add("enosys")
+            elif e["nnp"] and any(x < 0 for x in e["state"][e["caller"]]["chain"]):
+                f.add("prctl-denied")
             elif not h["priv"] and not e["state"][e["caller"]]["nnp"]:
                 f.add("eacces")
             else:
@@ -97,6 +104,8 @@ def tags(h):
                 f.add("hook-spawn")
             if e["nnp"]:
                 f.add("nnp")
+            if e.get("pid") and e["pol"] == "valid" and any(x["op"] == "load" and x.get("pid") == e["pid"] and x["fid"] < e["fid"] and x["res"] == "nil" for x in h["hist"]):
+                f.add("same-policy-again")
         else:
             f.add(e["op"])
     return f
@@ -121,7 +130,10 @@ def check(ctx, replay=None):
         return 0
     th = ctx.tier == "thorough"
     # 1. exhaustive model check of the loader + kernel model
-    jobs = [dict(module="Loader", cfg=lf.mc_cfg(), name="Loader_3t_3l", timeout=3000)]
+    # (the environment that denies prctl(2) multiplies the states by four: full size in the thorough tier, two threads x two loads here)
+    jobs = [dict(module="Loader", cfg=lf.mc_cfg(allow_deny=th), name="Loader_3t_3l", timeout=3000)]
+    if not th:
+        jobs.append(dict(module="Loader", cfg=lf.mc_cfg(threads="{t1, t2}", maxloads=2, polids="{0, 1}"), name="Loader_2t_2l_deny", timeout=3000))
     if th:
         jobs.append(dict(module="Loader", cfg=lf.mc_cfg(threads="{t1, t2, t3, t4}", maxloads=3), name="Loader_4t_3l", timeout=3000))
     # 2. histories for replay: the full alphabet without, and a reduced alphabet with, an enclosing filter that blocks seccomp(2)
@@ -129,14 +141,21 @@ def check(ctx, replay=None):
                      name="LoaderGen", timeout=3000))
     jobs.append(dict(module="LoaderGen", cfg=lf.gen_cfg("{pool, t1, t2}", 2, '{{}, {"TSYNC"}, {"TSYNC", "LOG"}}', '{"valid"}', "{t1, t2}", False, allow_block=True),
                      name="LoaderGenBlock", timeout=3000))
+    # ... and with an enclosing filter that denies prctl(2), and loads that repeat a policy
+    jobs.append(dict(module="LoaderGen", cfg=lf.gen_cfg("{pool, t1, t2}", 2, '{{}, {"TSYNC"}}', '{"valid"}', "{t1, t2}", False, allow_deny=True, polids="{0, 1}"),
+                     name="LoaderGenDeny", timeout=3000))
     res = ctx.tlc_many(jobs, parallel=3)
+    extra = [h for h in lf.histories(res[-1]["out"]) if any(e["op"] == "denyprctl" or e.get("pid") for e in h["hist"])]
+    ctx.cov["states"] -= res[-1]["distinct"]
+    ctx.cov["transitions"] -= res[-1]["generated"]
+    res = res[:-1]
     for r in res[:-2]:
         if r["violated"]:
             raise vlib.Machinery("TLC: %s violated in %s: the specification of the unchanged design does not satisfy its own invariant" % (r["violated"], r["name"]))
     for r in res[-2:]:
         ctx.cov["states"] -= r["distinct"]
         ctx.cov["transitions"] -= r["generated"]
-    hists = lf.histories(res[-2]["out"]) + [h for h in lf.histories(res[-1]["out"]) if any(e["op"] == "block" for e in h["hist"])]
+    hists = lf.histories(res[-2]["out"]) + [h for h in lf.histories(res[-1]["out"]) if any(e["op"] == "block" for e in h["hist"])] + extra
     if not hists:
         raise vlib.Machinery("no histories generated")
     n = 1500 if th else 220
@@ -187,7 +206,7 @@ def check(ctx, replay=None):
         raise vlib.Machinery("%d of %d children failed" % (failed_children, len(picked)))
     ctx.cov["histories_generated"] = len(hists)
     ctx.cov["replayed_by_tag"] = seen_tags
-    for need in ("refused-tsync", "eacces", "enosys", "badflags", "oversize", "invalid", "ok-tsync", "ok-plain", "supported", "hook-spawn"):
+    for need in ("refused-tsync", "eacces", "enosys", "badflags", "oversize", "invalid", "ok-tsync", "ok-plain", "supported", "hook-spawn", "prctl-denied", "same-policy-again"):
         if not seen_tags.get(need):
             raise vlib.Machinery("no replayed history exercised '%s'" % need)
     ctx.cov["history_classes"] = nclasses
